@@ -591,3 +591,33 @@ pub fn c16_cat2_%(sa)s_%(sb)s() {
 ''' % dict(sa=CAT_SHAPES[a], sb=CAT_SHAPES[b], a=a, b=b, tier="quick" if (a, b) in quick_pairs else "thorough",
            to=600 if (a, b) in quick_pairs else 1800, mem=8 if (a, b) in quick_pairs else 20)
     return {"c16_op.rs": out}
+
+
+# ------------------------------------------------------------------------------------
+# C05: if / and / or per concrete operand count
+# ------------------------------------------------------------------------------------
+
+def gen_c05(tier):
+    out = prelude("c05_op.rs")
+    tmpl = '''
+//@ harness: %(name)s tier=%(tier)s timeout=%(to)d kind=main mem=%(mem)d
+//@ encodes: %(enc)s, op::logic::truthy, Raw::evaluate (Parsed::from_value replaced by its recording twin: literals parse to Raw, C02)
+//@ bound: %(k)d literal operands (conditions Bool / i64, branches i64, payloads symbolic): returned operand == reference; the operands parsed-and-evaluated are exactly the reference sequence (conditions left to right up to the deciding one, then its branch)
+//@ cuts: maps
+#[cfg_attr(kani, kani::proof)]
+#[cfg_attr(kani, kani::unwind(%(unw)d))]
+#[cfg_attr(kani, kani::stub(std::fmt::format, stub_format))]
+#[cfg_attr(kani, kani::stub(crate::value::Parsed::from_value, crate::value::verif_c05_value::RecParsed::from_value))]
+#[cfg_attr(verif_replay, test)]
+pub fn %(name)s() {
+    %(call)s;
+}
+'''
+    for k in range(0, 8):
+        out += tmpl % dict(name="c05_if_%d" % k, tier="quick", to=900, mem=8, k=k,
+                           enc="op::logic::if_", unw=14, call="if_case(%d)" % k)
+    for k in range(1, 6):
+        for (nm, flag) in (("and", "true"), ("or", "false")):
+            out += tmpl % dict(name="c05_%s_%d" % (nm, k), tier="quick", to=900, mem=8, k=k,
+                               enc="op::logic::%s" % nm, unw=14, call="andor_case(%d, %s)" % (k, flag))
+    return {"c05_op.rs": out}
